@@ -217,6 +217,19 @@ def mutate(rng, s, alphabet):
     return "".join(s)
 
 
+PUMP_UNITS = [" ", "\n", "\t", " \n", "\n    ", "x", "(", "[", "'", '"', ":", ".", ",", "`", "-"]
+PUMP_WORDS = ["default", "Defaults", "defaults to", "Default value", "Default:", ":param", ":type a:", ":return:", "Returns", "Args:", "or", "of", "one of",
+              "Optional", "List", "```", "foo"]
+
+
+def pump(rng, s):
+    """pumped input: after a word that the scanners react to, a long run (20-60) of one repeated unit, then an ordinary word —
+    the shape on which super-linear scanning (nested loops, backtracking) shows"""
+    i = rng.randrange(len(s) + 1)
+    run_ = rng.choice(PUMP_UNITS) * rng.randint(20, 60)
+    return s[:i] + " " + rng.choice(PUMP_WORDS) + run_ + rng.choice(["value", "5", "x", ":", "", "to", "\n"]) + s[i:]
+
+
 def run(chk: core.Check) -> int:
     (whiles, recs), _ = regen_loops()
     chk.lean(MODULE, THEOREMS)
@@ -248,6 +261,11 @@ def run(chk: core.Check) -> int:
         add(mutate(rng, rng.choice(base), ALPHABET))
     for _ in range(3000 if chk.quick else 40000):
         add("".join(rng.choice(ALPHABET) for _ in range(rng.randint(maxlen + 1, 16))))
+    n_pumped = 0
+    for _ in range(400 if chk.quick else 6000):
+        add(pump(rng, rng.choice(base) if rng.random() < 0.6 else rng.choice(["", "Summary.\n\n:param a: b\n", "Args:\n  a (int): b\n"])))
+        n_pumped += 1
+    chk.coverage["pumped_inputs"] = n_pumped
     impl = core.guarded_map(impl_walk, docs, 10.0)
     model = core.model_batch([{"op": "c11.walk", "doc": d} for d in docs]) if have_driver else [None] * len(docs)
     n_dis = 0
@@ -358,7 +376,7 @@ def run(chk: core.Check) -> int:
                         {"fn": "find", "search": case[1], "src": src})
 
     # ---- (5) whole parser / emitter on arbitrary text, and on their own output ----------------------------
-    pdocs = rng.sample(docs, min(len(docs), 2500 if chk.quick else 40000))
+    pdocs = rng.sample(docs[:-n_pumped], min(len(docs) - n_pumped, 2500 if chk.quick else 40000)) + docs[-n_pumped:]
     impl = core.guarded_map(impl_parse, pdocs, 15.0)
     outcomes = {}
     for d, r in zip(pdocs, impl):
